@@ -101,3 +101,272 @@ def c15_pred(sw, f):
 
 C15_ENTRIES = ["put.finish", "get", "get_size", "get_reader", "get_range", "remove", "remove_range", "checkpoint",
                "stats", "delete_orphan", "delete_orphans", "quarantine_orphans"]
+
+
+# ---- ordering / discipline predicates over effect traces ------------------------------------------------
+# each returns None or (kind, detail, extra-dict-for-replay)
+
+def _io(f):
+    return [(i, e) for i, e in enumerate(f.trace) if e["kind"] == "io"]
+
+
+def p_cas_never_written(sw, f):
+    """C06: no file under cas/ is ever opened for writing / created / truncated / written in place"""
+    for i, e in _io(f):
+        p = e.get("path") or ("",)
+        if p and p[0] == "cas":
+            if e["op"] == "open" and any(e.get("flags", {}).get(k) for k in ("write", "create", "truncate", "append")):
+                return ("cas-write-open", "a file under cas/ is opened for writing", dict(pred="cas_never_written"))
+            if e["op"] in ("write", "create", "create-temp"):
+                return ("cas-write", "a file under cas/ is written in place", dict(pred="cas_never_written"))
+    return None
+
+
+def p_stage_complete_before_rename(sw, f, sync_mode="sync"):
+    """C06/C09: staged blob: every byte flushed (+fdatasync in Sync mode) before the rename into cas/,
+    and never written after it"""
+    ios = _io(f)
+    for n, (i, e) in enumerate(ios):
+        if e["op"] == "rename" and e["outcome"] == "ok" and e["path"][0] == "staging" and e.get("dst", ("",))[0] == "cas":
+            src = e["path"]
+            before = [x for _, x in ios[:n] if x.get("path") == src]
+            after = [x for _, x in ios[n + 1:] if x.get("path") == src]
+            wr = [k for k, x in enumerate(before) if x["op"] == "write" and x["outcome"] == "ok"]
+            if not wr:
+                return ("rename-before-flush", "blob renamed into cas/ before its buffered bytes were written",
+                        dict(pred="stage_complete_before_rename"))
+            if any(x["op"] == "write" for x in after):
+                return ("write-after-rename", "bytes are written to the blob after it became visible under cas/",
+                        dict(pred="stage_complete_before_rename"))
+            want = "sync" if sync_mode == "sync" else "async-sync-request"
+            if not any(x["op"] == want and x["outcome"] == "ok" for x in before[wr[-1] + 1:]):
+                return ("rename-before-sync", f"blob renamed into cas/ without a preceding {want} of the staged file",
+                        dict(pred="stage_complete_before_rename"))
+    return None
+
+
+def p_wal_durable_before_unlink(sw, f):
+    """C03/C09: a referenced blob is unlinked only after the WAL record that un-references it was
+    written AND fdatasync'ed (put/remove paths)"""
+    ios = _io(f)
+    for n, (i, e) in enumerate(ios):
+        if e["op"] == "unlink" and e["outcome"] == "ok" and e["path"][0] == "cas":
+            before = [x for _, x in ios[:n]]
+            wal_w = [k for k, x in enumerate(before) if x["op"] == "write" and x["outcome"] == "ok" and x["path"][0] == "wal"]
+            if not wal_w:
+                return ("unlink-before-wal", "blob unlinked before any WAL record was written",
+                        dict(pred="wal_durable_before_unlink"))
+            if not any(x["op"] == "sync" and x["outcome"] == "ok" and x["path"][0] == "wal" for x in before[wal_w[-1] + 1:]):
+                return ("unlink-before-wal-sync", "blob unlinked before the WAL record was fdatasync'ed",
+                        dict(pred="wal_durable_before_unlink"))
+    return None
+
+
+def p_snapshot_before_prune(sw, f):
+    """C03/C20: WAL segments are pruned only after the new snapshot was written, synced and renamed"""
+    ios = _io(f)
+    for n, (i, e) in enumerate(ios):
+        if e["op"] == "unlink" and e["path"][0] == "wal":
+            before = [x for _, x in ios[:n]]
+            ren = [k for k, x in enumerate(before) if x["op"] == "rename" and x["outcome"] == "ok" and x["path"] == ("index.tmp",)
+                   and x.get("dst") == ("index",)]
+            if not ren:
+                return ("prune-before-snapshot", "a WAL segment is removed before the snapshot rename",
+                        dict(pred="snapshot_before_prune"))
+            pre = before[:ren[-1]]
+            w = [k for k, x in enumerate(pre) if x["op"] == "write" and x["outcome"] == "ok" and x["path"] == ("index.tmp",)]
+            if not w or not any(x["op"] == "sync" and x["outcome"] == "ok" and x["path"] == ("index.tmp",) for x in pre[w[-1] + 1:]):
+                return ("snapshot-rename-before-sync", "index.tmp renamed over index before it was written and synced",
+                        dict(pred="snapshot_before_prune"))
+    return None
+
+
+def p_unlink_under_intents(sw, f):
+    """C04/C08: every blob unlink happens while the pending_intents lock is held"""
+    for i, e in _io(f):
+        if e["op"] == "unlink" and e["path"][0] == "cas" and e["outcome"] in ("ok", "NotFound"):
+            if not any(l == "pending_intents" for (l, m) in e["locks"]):
+                return ("unlink-outside-intents-lock", "a blob is unlinked without holding the pending_intents lock",
+                        dict(pred="unlink_under_intents"))
+    return None
+
+
+def make_p_intent_before_rename(ex):
+    def p(sw, f):
+        """C04/C08: the commit's intent (key -> hash) is registered before its blob appears under cas/"""
+        for n, e in enumerate(f.trace):
+            if e["kind"] == "io" and e["op"] == "rename" and e["outcome"] == "ok" and e.get("dst", ("",))[0] == "cas":
+                h = e["dst"][1]
+                ok = False
+                for x in f.trace[:n]:
+                    if x["kind"] == "intent" and x["op"] == "insert":
+                        if not ex.feasible(f.pc, x["hash"] != h):
+                            ok = True
+                if not ok:
+                    return ("rename-before-intent", "blob placed under cas/ before an intent protecting it was registered",
+                            dict(pred="intent_before_rename"))
+        return None
+    return p
+
+
+def p_abandon_only_staging(sw, f):
+    """C13: creating / dropping a transaction touches only its own fresh staging file, takes no lock"""
+    for e in f.trace:
+        if e["kind"] in ("acq", "rel", "intent"):
+            return ("abandoned-tx-shared-state", "an un-finished transaction touches shared state (lock/intent)",
+                    dict(pred="abandon_only_staging"))
+        if e["kind"] == "io":
+            p = e.get("path") or ("",)
+            if p[0] != "staging":
+                return ("abandoned-tx-foreign-path", f"an un-finished transaction touches {p[0]}", dict(pred="abandon_only_staging"))
+            if e["op"] == "open" and not e.get("flags", {}).get("reopen"):
+                return ("staging-not-fresh", "the staging file is opened by name (create/truncate) instead of created fresh",
+                        dict(pred="abandon_only_staging"))
+    return None
+
+
+_EXPLORE_CACHE = {}
+
+
+def run_preds(ex, name, preds, U=2, HU=2, tags=(), faults=0, spill=False, **world):
+    """explore one entry point ONCE and evaluate several predicates; -> [Obligation] (one per pred)
+    preds: [(label, fn)]"""
+    key = (name, U, HU, faults, spill, tuple(sorted(world.items())))
+    t0 = time.time()
+    q0 = ex.queries
+    if key not in _EXPLORE_CACHE:
+        _EXPLORE_CACHE[key] = entry.explore(ex, name, U=U, HU=HU, faults=faults, spill=spill, **world)
+    sw, finals = _EXPLORE_CACHE[key]
+    texp = time.time() - t0
+    qexp = ex.queries - q0
+    out = []
+    for label, pred in preds:
+        t1 = time.time()
+        oname = f"{label}: {name}"
+        bad = [f for f in finals if f.status in ("unsupported", "cut")]
+        if bad:
+            out.append(Obligation(oname, list(tags), "inconclusive", texp, f"{bad[0].status}: {bad[0].note}", None, qexp, len(finals)))
+            continue
+        ob = None
+        for f in finals:
+            v = pred(sw, f)
+            if v is not None:
+                r, m = ex.model_of(f.pc)
+                cex = {}
+                if m is not None:
+                    w = sw.iw
+                    cex = model_values(m, dict(keys=w.keys, hashes=w.hashes, pk=w.pk, hk=w.hk, N=sw.N, next=sw.next, lpv=w.lpv))
+                cex.update(entry=name, violation=v[0], detail=v[1], trace=trace_str(f, 60))
+                if len(v) > 2:
+                    cex.update(v[2])
+                ob = Obligation(oname, list(tags), "violated", texp + time.time() - t1, f"{v[0]}: {v[1]}", cex, qexp, len(finals))
+                break
+        if ob is None:
+            if not finals:
+                ob = Obligation(oname, list(tags), "inconclusive", texp, "no feasible path", None, qexp, 0)
+            else:
+                ob = Obligation(oname, list(tags), "discharged", texp + time.time() - t1,
+                                f"{len(finals)} feasible paths checked", None, qexp, len(finals))
+                ob.sample = trace_str(max(finals, key=lambda x: len(x.trace)), 50)
+        ob.pred_fn = pred
+        out.append(ob)
+        texp, qexp = 0.0, 0
+    return out
+
+
+def p_quarantine_under_intents(sw, f):
+    for i, e in _io(f):
+        if e["op"] == "rename" and e["path"][0] == "cas":
+            if not any(l == "pending_intents" for (l, m) in e["locks"]):
+                return ("quarantine-outside-intents-lock", "an orphan is moved out of cas/ without holding the pending_intents lock",
+                        dict(pred="unlink_under_intents"))
+    return None
+
+
+def make_p_intent_at_apply(ex):
+    def p(sw, f):
+        """the intent inserted by register_intent is for the committed (key, hash) and is not removed
+        before the state write lock of the apply is taken"""
+        ins = [n for n, e in enumerate(f.trace) if e["kind"] == "intent" and e["op"] == "insert"]
+        app = [n for n, e in enumerate(f.trace) if e["kind"] == "acq" and e["lock"] == "state" and e["mode"] == "write"]
+        ren = [n for n, e in enumerate(f.trace) if e["kind"] == "io" and e["op"] == "rename" and e.get("dst", ("",))[0] == "cas"
+               and e["outcome"] == "ok"]
+        if ren and app:
+            if not ins or ins[0] > app[0]:
+                return ("no-intent-at-apply", "the commit reaches its index apply without a registered intent",
+                        dict(pred="register_intent"))
+            k = getattr(sw, "op_key", None)
+            e = f.trace[ins[0]]
+            if k is not None and ex.feasible(f.pc, e["key"] != k):
+                return ("intent-wrong-key", "the registered intent is not for the committed key", dict(pred="register_intent"))
+            rm = [n for n, x in enumerate(f.trace) if x["kind"] == "intent" and x["op"] == "remove" and ins[0] < n < app[0]]
+            if rm:
+                return ("intent-dropped-early", "the intent is removed before the index apply", dict(pred="register_intent"))
+        return None
+    return p
+
+
+def make_p_orphan_guarded(ex):
+    def p(sw, f):
+        """at every orphan unlink/quarantine of hash h: h is not referenced by the index and no intent
+        holds h (evaluated on the pre-state: these entry points do not modify index or intents)"""
+        w = sw.iw
+        for i, e in _io(f):
+            if (e["op"] == "unlink" and e["path"][0] == "cas" and e["outcome"] == "ok") or \
+               (e["op"] == "rename" and e["path"][0] == "cas" and e["outcome"] == "ok"):
+                h = e["path"][1]
+                referenced = z3.Or([z3.And(w.pk[j], w.hk[j] == h) for j in range(w.U)])
+                intent = z3.Or([z3.And(sw.ip[j], sw.ih[j] == h) for j in range(w.U)])
+                if ex.feasible(f.pc, z3.Or(referenced, intent)):
+                    return ("live-blob-removed", "an orphan clean-up removes a blob that a key references or an in-flight commit protects",
+                            dict(pred="orphan_guarded"))
+        return None
+    return p
+
+
+def p_staging_fresh_native(sw, f):
+    """strace-side counterpart of p_abandon_only_staging: every staging file is created exclusively
+    (O_CREAT|O_EXCL, fresh random name), never opened by a reusable name with O_CREAT/O_TRUNC"""
+    for i, e in _io(f):
+        p = e.get("path") or ("",)
+        if p[0] == "staging" and e["op"] == "open" and (e["flags"].get("create") or e["flags"].get("truncate")):
+            return ("staging-not-fresh", "a staging file is opened with O_CREAT/O_TRUNC by name instead of being created fresh (O_EXCL)",
+                    dict(pred="abandon_only_staging"))
+    return None
+
+
+p_abandon_only_staging.native = p_staging_fresh_native
+
+
+def p_record_single_write(sw, f):
+    """C03/C20: between two fdatasyncs of a WAL segment at most one write call happens, i.e. every
+    record (and the end marker) reaches the file with a single write"""
+    pending = {}
+    for i, e in _io(f):
+        p = e.get("path") or ("",)
+        if p[0] != "wal":
+            continue
+        if e["op"] == "write" and e["outcome"] == "ok":
+            pending[p] = pending.get(p, 0) + 1
+            if pending[p] > 1:
+                return ("record-split", "a WAL record is written with more than one write call (torn by a crash in between)",
+                        dict(pred="record_single_write"))
+        elif e["op"] == "sync":
+            pending[p] = 0
+    return None
+
+
+def p_ack_after_wal_sync(sw, f):
+    """C03: an operation that returns Ok has its WAL record written and fdatasync'ed"""
+    if f.status != "returned" or not isinstance(f.retval, VEnum) or f.retval.concrete() != 0:
+        return None
+    ios = [e for _, e in _io(f)]
+    w = [k for k, x in enumerate(ios) if x["op"] == "write" and x["outcome"] == "ok" and x["path"][0] == "wal"]
+    mut = any(e["kind"] == "acq" and e["lock"] == "wal" for e in f.trace)
+    if not mut:
+        return None
+    appended = any(x["op"] == "write" and x["path"][0] == "wal" for x in ios)
+    if appended and not any(x["op"] == "sync" and x["outcome"] == "ok" and x["path"][0] == "wal" for x in ios[w[-1] + 1:]):
+        return ("ack-before-wal-sync", "operation acknowledged although its WAL record was not fdatasync'ed",
+                dict(pred="ack_after_wal_sync"))
+    return None
